@@ -412,6 +412,11 @@ def parseMessage(rawMessage, oobFDs):
             pass
 
     if m.signature:
+        # the field is a variant: sent as a STRING it would escape the
+        # 255 byte limit of the SIGNATURE type
+        if not isinstance(m.signature, str) or len(m.signature) > 255:
+            raise error.MarshallingError('Invalid signature header field')
+
         nbytes, m.body = marshal.unmarshal(
             m.signature,
             m.rawBody,
